@@ -104,7 +104,7 @@ func (tr *FnTrans) edgeCondFor(b *ssa.BasicBlock, predIdx int) string {
 
 func (tr *FnTrans) enterBlock(b *ssa.BasicBlock) *BState {
 	if b.Index == 0 {
-		st := &BState{reach: "true", heap: tr.entryHeap.child(), ac: "ac0"}
+		st := &BState{reach: "true", heap: tr.entryHeap.child(), ac: "ac0", lastNow: tr.smt.fresh("now_at_entry", "Int")}
 		tr.in[b] = st
 		return st
 	}
@@ -143,6 +143,23 @@ func (tr *FnTrans) enterBlock(b *ssa.BasicBlock) *BState {
 			}
 		}
 		st.ac = tr.smt.define("ac", "Int", acc)
+		ln := ""
+		mixed := false
+		for k := len(idxs) - 1; k >= 0; k-- {
+			a := tr.out[b.Preds[idxs[k]]].lastNow
+			if a == "" {
+				mixed = true
+				break
+			}
+			if ln == "" {
+				ln = a
+			} else if a != ln {
+				ln = fmt.Sprintf("(ite %s %s %s)", conds[k], a, ln)
+			}
+		}
+		if !mixed && ln != "" {
+			st.lastNow = tr.smt.define("lastnow", "Int", ln)
+		}
 	}
 	tr.in[b] = st
 
@@ -606,6 +623,22 @@ func (tr *FnTrans) instr(st *BState, in ssa.Instruction) {
 		tr.vals[x] = tr.introduce(x.Name(), x.Type(), st.reach, "s2ap")
 	case *ssa.Store:
 		a, v := tr.val(x.Addr), tr.val(x.Val)
+		for _, alias := range tr.storeSites[x] {
+			// an assignment used as an observation point of the contract
+			site := &Site{Callee: "store", Args: []Val{a, v}, ParamNames: []string{"addr", "val"}, Reach: st.reach, Before: st.heap, After: st.heap, Block: tr.curBlock, Index: tr.curIdx, Pos: x.Pos()}
+			st.heap = st.heap.child()
+			tr.siteByAlias[alias] = site
+			for _, sa := range tr.c.Asserts {
+				if sa.Alias == alias && !sa.Assume {
+					env := tr.envAt(tr.curBlock, tr.curIdx, site.Before, tr.entryHeap)
+					lbl := sa.C.Name
+					if lbl == "" {
+						lbl = alias
+					}
+					tr.oblige("site-assert["+lbl+"]", "at "+alias+": "+sa.C.Src, st.reach, env.evalGoal(sa.C.E), x.Pos())
+				}
+			}
+		}
 		tr.safety("nil", "nil dereference in store", st, fmt.Sprintf("(not (= %s nil))", a.T), x.Pos())
 		tr.store(st.heap, a.T, x.Val.Type(), v.T)
 	case *ssa.TypeAssert:
@@ -1055,6 +1088,32 @@ func (tr *FnTrans) resolveSites() {
 	for _, sd := range tr.c.Sites {
 		k := 0
 		found := false
+		if strings.HasPrefix(sd.Pattern, "store:") {
+			// the k-th assignment (source order) to a field of that name
+			fname := strings.TrimPrefix(sd.Pattern, "store:")
+			var stores []*ssa.Store
+			for _, b := range tr.fn.Blocks {
+				for _, in := range b.Instrs {
+					if st, ok := in.(*ssa.Store); ok {
+						if fa, ok := st.Addr.(*ssa.FieldAddr); ok {
+							stt := fa.X.Type().Underlying().(*types.Pointer).Elem().Underlying().(*types.Struct)
+							if stt.Field(fa.Field).Name() == fname {
+								stores = append(stores, st)
+							}
+						}
+					}
+				}
+			}
+			sort.SliceStable(stores, func(i, j int) bool { return stores[i].Pos() < stores[j].Pos() })
+			if sd.K <= len(stores) {
+				tr.storeSites[stores[sd.K-1]] = append(tr.storeSites[stores[sd.K-1]], sd.Alias)
+				found = true
+			}
+			if !found {
+				tr.missingSites = append(tr.missingSites, sd)
+			}
+			continue
+		}
 		for _, c := range calls {
 			if siteMatches(calleeName(c.in.Common()), sd.Pattern) {
 				k++
@@ -1067,7 +1126,7 @@ func (tr *FnTrans) resolveSites() {
 			}
 		}
 		if !found {
-			tr.siteErrors = append(tr.siteErrors, fmt.Sprintf("site %s#%d (alias %s) matches no call in %s", sd.Pattern, sd.K, sd.Alias, tr.name))
+			tr.missingSites = append(tr.missingSites, sd)
 		}
 	}
 }
@@ -1153,6 +1212,16 @@ func (tr *FnTrans) siteFor(alias string) *Site {
 	}
 	ci, ok := tr.siteInstr[alias]
 	if !ok {
+		for _, sd := range tr.missingSites {
+			if sd.Alias == alias {
+				if g, ok := tr.ghostSites[alias]; ok {
+					return g
+				}
+				g := &Site{Callee: sd.Pattern, Reach: "false", Before: tr.entryHeap, After: tr.entryHeap, Missing: true}
+				tr.ghostSites[alias] = g
+				return g
+			}
+		}
 		return nil
 	}
 	if g, ok := tr.ghostSites[alias]; ok {
@@ -1359,6 +1428,15 @@ func (tr *FnTrans) doCall(st *BState, ci ssa.CallInstruction) Val {
 	st.heap = st.heap.child()
 	tr.applyDecoded(st, site)
 
+	if name == "time.Now" && len(results) == 1 {
+		tr.smt.declareFun("spec_instant", []string{tr.smt.sortOf(results[0].Ty)}, "Int")
+		inst := fmt.Sprintf("(spec_instant %s)", results[0].T)
+		if st.lastNow != "" {
+			tr.assume(st.reach, fmt.Sprintf("(>= %s %s)", inst, st.lastNow), "the clock does not run backwards")
+		}
+		st.lastNow = tr.smt.define("lastnow", "Int", inst)
+		tr.usedSpecs["successive time.Now() readings are non-decreasing (instants)"] = true
+	}
 	if spec != nil {
 		tr.applySpec(st, site, spec, cc)
 		// results the contract declares fresh were allocated during the call
@@ -1420,6 +1498,10 @@ func (tr *FnTrans) calleeEnv(site *Site, spec *Contract, cc *ssa.CallCommon) *En
 	}
 	if fn, ok := cc.Value.(*ssa.Function); ok && fn.Pkg != nil {
 		env.pkg = fn.Pkg.Pkg
+	} else if mc, ok := cc.Value.(*ssa.MakeClosure); ok {
+		if cf, ok := mc.Fn.(*ssa.Function); ok && cf.Pkg != nil {
+			env.pkg = cf.Pkg.Pkg
+		}
 	} else if cc.IsInvoke() && cc.Method.Pkg() != nil {
 		env.pkg = cc.Method.Pkg()
 	}
